@@ -139,6 +139,23 @@ inline json err_json(const UTAP::error_t& e)
 }
 
 // expressions of a function body in source order (statement expressions, conditions, return values)
+// after a failed parse a function body may hold compound statements whose sub-statement is null (the builder pops from an empty
+// block during error recovery); the library's own printers and visitors dereference it, so the walker looks first
+inline bool stmt_incomplete(const Statement* s)
+{
+    if (!s) return true;
+    if (auto* b = dynamic_cast<const BlockStatement*>(s)) {
+        for (auto it = b->begin(); it != b->end(); ++it) if (stmt_incomplete(it->get())) return true;
+        return false;
+    }
+    if (auto* f = dynamic_cast<const ForStatement*>(s)) return stmt_incomplete(f->stat.get());
+    if (auto* i = dynamic_cast<const IterationStatement*>(s)) return stmt_incomplete(i->stat.get());
+    if (auto* w = dynamic_cast<const WhileStatement*>(s)) return stmt_incomplete(w->stat.get());
+    if (auto* d = dynamic_cast<const DoWhileStatement*>(s)) return stmt_incomplete(d->stat.get());
+    if (auto* c = dynamic_cast<const IfStatement*>(s)) return stmt_incomplete(c->trueCase.get()) || (c->falseCase && stmt_incomplete(c->falseCase.get()));
+    return false;
+}
+
 struct StmtExprs : public AbstractStatementVisitor
 {
     std::vector<expression_t> exprs;
@@ -211,8 +228,10 @@ struct Dumper
                 if (v.uid.get_data() != &v) bad("function local is not the user object of its symbol", where + "/fun:" + f.uid.get_name() + "/var:" + v.uid.get_name());
             }
             fj["locals"] = lv;
-            try { std::ostringstream os; if (f.body) { f.print(os); } fj["text"] = os.str(); } catch (const std::exception& e) { fj["text"] = std::string("<<threw ") + e.what(); }
-            if (trees && f.body) {
+            const bool incomplete = f.body && stmt_incomplete(f.body.get());
+            if (incomplete) fj["text"] = "<<incomplete body>>";
+            else try { std::ostringstream os; if (f.body) { f.print(os); } fj["text"] = os.str(); } catch (const std::exception& e) { fj["text"] = std::string("<<threw ") + e.what(); }
+            if (trees && f.body && !incomplete) {
                 StmtExprs se;
                 try { f.body->accept(&se); } catch (...) {}
                 json ea = json::array();
